@@ -31,16 +31,21 @@ pub fn standard_plan(tier: Tier, scale: u64) -> Plan {
     match tier {
         Tier::Quick => {
             families.push((Box::new(EpFamily { extra: Extra::None }), 1));
-            families.push((Box::new(CastleFamily { extras: 0, opp_rights: false }), 1));
-            families.push((Box::new(CastleFamily { extras: 1, opp_rights: false }), 1));
+            families.push((Box::new(CastleFamily { extras: 0, opp_rights: false, opp_to_move: false }), 1));
+            families.push((Box::new(CastleFamily { extras: 1, opp_rights: false, opp_to_move: false }), 1));
+            families.push((Box::new(CastleFamily { extras: 0, opp_rights: false, opp_to_move: true }), 2));
+            families.push((Box::new(CastleFamily { extras: 1, opp_rights: false, opp_to_move: true }), 1));
             families.push((Box::new(PromoFamily::reduced()), 1));
         }
         Tier::Thorough => {
             families.push((Box::new(EpFamily { extra: Extra::None }), 2));
             families.push((Box::new(EpFamily { extra: Extra::Any }), 1));
-            families.push((Box::new(CastleFamily { extras: 0, opp_rights: false }), 2));
-            families.push((Box::new(CastleFamily { extras: 1, opp_rights: false }), 1));
-            families.push((Box::new(CastleFamily { extras: 1, opp_rights: true }), 1));
+            families.push((Box::new(CastleFamily { extras: 0, opp_rights: false, opp_to_move: false }), 2));
+            families.push((Box::new(CastleFamily { extras: 1, opp_rights: false, opp_to_move: false }), 1));
+            families.push((Box::new(CastleFamily { extras: 1, opp_rights: true, opp_to_move: false }), 1));
+            families.push((Box::new(CastleFamily { extras: 0, opp_rights: false, opp_to_move: true }), 2));
+            families.push((Box::new(CastleFamily { extras: 1, opp_rights: false, opp_to_move: true }), 1));
+            families.push((Box::new(CastleFamily { extras: 1, opp_rights: true, opp_to_move: true }), 1));
             families.push((Box::new(PromoFamily::full()), 1));
             for men in [
                 vec![(Kind::Q, Col::W), (Kind::R, Col::B)],
